@@ -21,6 +21,7 @@ FindMin == UNCHANGED map /\ last' = L("min", 0, 0, IF DOMAIN map = {} THEN 0 ELS
 FindMax == UNCHANGED map /\ last' = L("max", 0, 0, IF DOMAIN map = {} THEN 0 ELSE MaxOf(DOMAIN map))
 Size == UNCHANGED map /\ last' = L("size", 0, 0, Cardinality(DOMAIN map))
 Clear == map' = [k \in {} |-> 0] /\ last' = L("clear", 0, 0, 0)
+Debug == UNCHANGED map /\ last' = L("debug", 0, 0, 1)
 \* traversal steps never change the contents; each element returned is a stored key (C03 adds order/completeness)
 IterStep == /\ UNCHANGED map /\ last'.op \in {"next", "abandon"}
             /\ (last'.op = "next" /\ last'.res # 0 => last'.res \in DOMAIN map)
@@ -29,6 +30,6 @@ Nearest == /\ UNCHANGED map /\ last'.op = "nearest" /\ DOMAIN map # {}
            /\ last'.res = Floor(DOMAIN map, last'.a)
 Next == \/ \E k \in Keys, v \in Vals : Put(k, v)
         \/ \E k \in Keys : Remove(k) \/ Get(k)
-        \/ FindMin \/ FindMax \/ Size \/ Clear \/ IterStep \/ Nearest
+        \/ FindMin \/ FindMax \/ Size \/ Clear \/ Debug \/ IterStep \/ Nearest
 Spec == Init /\ [][Next]_<<map, last>>
 ==========================================================================
